@@ -67,7 +67,7 @@ func alphaCases(maxN int) []alphaCase {
 		return l
 	}
 	var out []alphaCase
-	for n := 1; n <= maxN; n++ {
+	for n := 0; n <= maxN; n++ { // n = 0: the empty accumulator, where every claim is false
 		h := rm.Rows(uint64(n))
 		npos := (uint64(1) << (h + 1)) + 3
 		for mask := uint32(0); mask < 1<<uint(n); mask++ {
@@ -84,7 +84,7 @@ func init() {
 	core.Register(&core.Monitor{
 		ID:    "C03",
 		Level: "exploration",
-		Rule: "suite 'alpha' (exhaustive): every forest of 1..7 leaves with every alive pattern; every claim of one or two targets over all positions 0..2^(rows+1)+2 (so duplicates, nested pairs, absent and out-of-forest positions occur), each hash from {true hash at the target, hash of its sibling position, each non-zero root hash, one fresh value}, " +
+		Rule: "suite 'alpha' (exhaustive): every forest of 0..7 leaves with every alive pattern; every claim of one or two targets over all positions 0..2^(rows+1)+2 (so duplicates, nested pairs, absent and out-of-forest positions occur), each hash from {true hash at the target, hash of its sibling position, each non-zero root hash, one fresh value}, " +
 			"every proof up to the tier's length over {every node hash, one fresh value, the zero hash}; handed to Verify and Pollard.Verify. Suite 'mut': seeded histories; at each state structured mutants of honest proofs (swap/replace/duplicate/nest targets, swap/replace hashes, flip/drop/insert/duplicate/permute proof hashes) and alphabet claims, " +
 			"handed to Verify, Pollard.Verify, MapPollard.Verify (full/partial, several TotalRows) and MapPollard.VerifyPartialProof (with the claim's proof hashes and with the true hashes at the positions GetMissingPositions reports). " +
 			"Suite 'undo': interleavings of blocks, Undo (to any depth), Verify(remember), Ingest and Prune; after every operation the same claim generators run, plus honest claims of EARLIER states (true before an undo or a block, possibly false now). An evaluation = one verifier call. " +
@@ -251,7 +251,10 @@ func partialVerifier(in *Inst) c03Verifier {
 // exhaustive alphabet
 
 func alphaHistory(n int, mask uint32) gen.History {
-	h := gen.History{Tag: 0xA1FA, Blocks: []gen.Block{{Adds: n}}}
+	h := gen.History{Tag: 0xA1FA}
+	if n > 0 {
+		h.Blocks = []gen.Block{{Adds: n}}
+	}
 	var dels []int
 	for i := 0; i < n; i++ {
 		if mask>>uint(i)&1 == 0 {
